@@ -29,7 +29,7 @@ Closes(x) == [i \in 1..Len(x.closes) |-> [clean |-> x.closes[i].clean, code |-> 
 Matches(x, o) ==
   /\ x.st = o.st /\ x.cbm = o.cbm /\ x.fbm = o.fbm /\ x.dbm = o.dbm /\ x.clean = o.clean
   /\ (x.why = o.why \/ (x.why = "" /\ o.why = "none"))
-  /\ x.up = o.up /\ x.drop = o.drop
+  /\ x.up = o.up /\ (x.drop = o.drop \/ (x.drop = "either" /\ o.drop \in {"abort", "lose"}))
   /\ x.nclose = o.nclose /\ x.pings = o.pings /\ x.ndata = o.ndata /\ x.npong = o.npong
   /\ Closes(x) = o.closes
   \* (which timers are still pending once the connection is closed is nobody's business - they must have no effect, and that
